@@ -84,7 +84,8 @@ fn c01_one(st: &mut Stats, s: &str, src: Src) {
     st.src(src);
     st.cases += 1;
     let base = alloc::window_start();
-    let ex = exec(s);
+    // one execution in 64 (and every long one) with the stack-painting measure as well
+    let ex = if s.len() > 3000 || st.cases % 64 == 0 { run::exec_painted(s) } else { exec(s) };
     let (peak, _total) = alloc::window_end(base);
     st.observe_exec(&ex);
     let len = s.len();
@@ -240,7 +241,7 @@ fn scaling(ctx: &Ctx, st: &mut Stats) {
                 break;
             }
             let base = alloc::window_start();
-            let ex = exec(&s);
+            let ex = run::exec_painted(&s);
             let (peak, total_alloc) = alloc::window_end(base);
             st.observe_exec(&ex);
             c01_stack(st, &ex, &format!("family {name} n={n}"));
